@@ -7,6 +7,16 @@ from pytestarch.eval_structure_generation.file_import.config import Config
 from pytestarch.eval_structure_generation.file_import.file_filter import FileFilter
 
 
+def is_internal_module(module_name: str, internal_module_prefix: str) -> bool:
+    """A module is internal if it is the module the prefix stands for or one of its submodules. Modules that merely
+    start with the same characters (e.g. 'src.app_utils' for the prefix 'src.app') are not."""
+    internal_root_module = internal_module_prefix.rstrip(".")
+
+    return module_name == internal_root_module or module_name.startswith(
+        f"{internal_root_module}."
+    )
+
+
 class ExternalImportFilter:
     """Filters out imports of (some) external modules from the list of all imports.
     External modules are all modules that are not submodules of the configured module to search for imports.
@@ -56,7 +66,7 @@ class ExternalImportFilter:
     def _is_internal_import(self, i: Import) -> bool:
         importee = i.importee()
 
-        return importee.startswith(self._root_module_name)
+        return is_internal_module(importee, self._root_module_name)
 
     def _is_internal_or_retained_external_import(self, i: Import) -> bool:
         if self._is_internal_import(i):
